@@ -742,7 +742,7 @@ func main() {
 	r := ev.New("C08", "model_checking",
 		"schedule enumeration (stateless DFS with replay, preemption bound raised 0,1,2[,3], happens-before fingerprint pruning) of 10 UI scenarios (open/feed/keys/resize/link/hook/command goroutines over the real ui.State, pub fan-out inlined) and 7 pub-level scenarios "+
 			"(post with two authors+audience+replies, activity, two-page harvest, duplicate authors, splicer; fan-out fully scheduled); oracles: lock held in every private State method and frame, one frame at a time, no deadlock, progress at quiescence, frame height, "+
-			"final state of every preemptive schedule equals that of some non-preemptive (serial) one, constructed items identical in all schedules, one request per URL; states = happens-before fingerprints, transitions = scheduling points executed; distinct_nontrivial = distinct (scenario, outcome) pairs")
+			"final state of every preemptive schedule equals that of some non-preemptive (serial) one, constructed items identical in all schedules, one request per URL; end to end: 26 different keys arriving in one burst at the built program on a pseudo-terminal (main.go hands each key to a goroutine of its own) must each be handled exactly once, 10 rounds; states = happens-before fingerprints, transitions = scheduling points executed; distinct_nontrivial = distinct (scenario, outcome) pairs")
 	flag.Parse()
 	os.Setenv("VERIF_DIR_BIN", ev.VerifDir()+"/bin")
 	if *raceRounds > 0 {
@@ -798,6 +798,13 @@ func main() {
 	if *ev.FlagReplay != "" {
 		var rp replay
 		ev.LoadReplay(*ev.FlagReplay, &rp)
+		var bc struct {
+			Case burstCase `json:"case"`
+		}
+		ev.LoadReplay(*ev.FlagReplay, &bc)
+		if bc.Case.Burst {
+			burstPart(r)
+		}
 		for _, s := range uiScenarios() {
 			if s.Name == rp.Scenario {
 				x := runUI(s, rp.Schedule)
@@ -837,6 +844,7 @@ func main() {
 		r.FinishShard(*ev.FlagOut)
 	}
 	par.RunShards(r, len(names), 0)
+	burstPart(r)
 	raceSupplement(r)
 	r.Traces = r.Executions()
 	r.Extra["scenarios"] = names
